@@ -28,6 +28,12 @@ def run(run):
            name='attackers+defenses+extras slice',
            must_cover=('AddAttacker', 'RemoveAttackerOK', 'AddEntryPoint', 'RemoveEntryPoint', 'SetDefense',
                        'SetAssetExtras'))
+    run.mc('MC_Model', 'MC_Model_R.cfg', env={'VERIF_LANG': 'LTiny', 'VERIF_MAXH': 3}, timeout=1500,
+           name='re-add slice: removed / rejected objects handed in again (assets, associations, attackers)',
+           must_cover=('AddAssetOK', 'AddAssetRej', 'RemoveAssetOK', 'AddAssociation', 'AddAttacker', 'RemoveAttackerOK'))
+    if not quick:
+        run.mc('MC_Model', 'MC_Model_A.cfg', env={'VERIF_LANG': 'LTiny', 'VERIF_MAXH': 3, 'VERIF_READD': 1}, timeout=2400,
+               name='assets+associations slice with re-adds', must_cover=('AddAssetOK', 'RemoveAssetOK', 'AddAssociation', 'RemoveFromAssoc'))
     # (B) spec -> code
     args = {'langs': langs}
     run.gen_replay('Gen_Model', 'Gen_Model.cfg', MODEL_ADAPTER, args,
@@ -36,10 +42,23 @@ def run(run):
     for lang, depth in (('LDup', 2), ('LTrans', 2)) if quick else (('LDup', 3), ('LTrans', 3), ('LSet', 3)):
         run.gen_replay('Gen_Model', 'Gen_Model.cfg', MODEL_ADAPTER, args,
                        env={'VERIF_LANG': lang, 'VERIF_DEPTH': depth}, timeout=1800, name='BFS depth %d %s' % (depth, lang))
+    # association-focused: the assets first, then EVERY history of association edits (add, shrink, remove, hand a
+    # removed / rejected object in again) and asset removals / re-adds
+    for lang, na, k, mm in ((('LTrans', 2, 3, 2),) if quick else (('LTrans', 2, 4, 2), ('LTrans', 3, 3, 2), ('LTiny', 3, 2, 2), ('LDup', 3, 2, 2))):
+        run.gen_replay('Gen_Model', 'Gen_Model_c06.cfg', MODEL_ADAPTER, args,
+                       env={'VERIF_LANG': lang, 'VERIF_DEPTH': na + k, 'VERIF_NASSETS': na, 'VERIF_BUILDFIRST': 1, 'VERIF_BUILDOPS': 'assoc',
+                            'VERIF_MAXMEMBERS': mm, 'VERIF_MAXASSETS': na, 'VERIF_NODEF': 1, 'VERIF_MAXREJ': 1, 'VERIF_READD': 1},
+                       timeout=2400, name='%d assets then every history of %d association edits / removals / re-adds, %s' % (na, k, lang))
+    # attacker-focused: every history of attacker / entry point edits, asset removals and re-adds of removed objects
+    for na, k in (((1, 5),) if quick else ((1, 6), (2, 5))):
+        run.gen_replay('Gen_Model', 'Gen_Model_atk.cfg', MODEL_ADAPTER, args,
+                       env={'VERIF_LANG': 'LTiny', 'VERIF_DEPTH': na + k, 'VERIF_NASSETS': na, 'VERIF_BUILDFIRST': 1, 'VERIF_BUILDOPS': 'atk',
+                            'VERIF_MAXASSETS': na, 'VERIF_NODEF': 1, 'VERIF_MAXREJ': 1, 'VERIF_READD': 1},
+                       timeout=2400, name='%d asset(s) then every history of %d attacker / entry point edits, removals and re-adds' % (na, k))
     n = 20000 if quick else 400000
     for lang in ('LTiny', 'LDup'):
         run.gen_replay('Gen_Model', 'Gen_Model_sim.cfg', MODEL_ADAPTER, args,
-                       env={'VERIF_LANG': lang, 'VERIF_DEPTH': 12}, simulate=10 ** 9, depth=13, workers=8,
+                       env={'VERIF_LANG': lang, 'VERIF_DEPTH': 12, 'VERIF_READD': 1}, simulate=10 ** 9, depth=13, workers=8,
                        timeout=240 if quick else 1800, max_cases=n, name='simulate depth 12 %s' % lang)
 
     # (C) code -> spec: random API drivers under the tracer, validated by TLC
